@@ -30,6 +30,13 @@ M = [
     ("C15", "same in flush(): drains with buf_size_", "break", "util/compress.cc",
      "      do {\n        if (!compressor_.EnoughOutput()) {\n          writer_.write(buf_.get(), compressor_.NextOutput() - reinterpret_cast<const uint8_t*>(buf_.get()));",
      "      do {\n        if (!compressor_.EnoughOutput()) {\n          writer_.write(buf_.get(), buf_size_);"),
+    ("C15", "seeded C15-n1: xz decoder gets a 64 MiB memory limit", "break", "util/compress.cc",
+     "HandleError(lzma_stream_decoder(&stream_, UINT64_MAX, 0));", "HandleError(lzma_stream_decoder(&stream_, 64ULL << 20, 0));"),
+    ("C15", "seeded C15-n2: flush() calls Finish before draining a full buffer", "break", "util/compress.cc",
+     "      do {\n        if (!compressor_.EnoughOutput()) {\n          writer_.write(buf_.get(), compressor_.NextOutput() - reinterpret_cast<const uint8_t*>(buf_.get()));\n          compressor_.SetOutput(buf_.get(), buf_size_);\n        }\n      } while (!compressor_.Finish());",
+     "      while (!compressor_.Finish()) {\n        writer_.write(buf_.get(), compressor_.NextOutput() - reinterpret_cast<const uint8_t*>(buf_.get()));\n        compressor_.SetOutput(buf_.get(), buf_size_);\n      }"),
+    ("C15", "seeded C15-n3: FilePiece re-detects a magic in already decompressed data", "break", "util/file_piece.cc",
+     "    if (!fallback_to_read_) {\n      at_end_ = false;\n      TransitionToRead();\n    }", "    at_end_ = false;\n    TransitionToRead();"),
     ("C15", "revert fix: zlib input cursor uninitialised", "break", "util/compress.cc",
      "      stream_.next_in = Z_NULL;\n      stream_.avail_in = 0;\n", ""),
     ("C15", "revert fix: bzip2 stall test", "break", "util/compress.cc",
@@ -60,6 +67,8 @@ M = [
      "      SpillBuffer();\n      // Poison.", "      // Poison."),
     ("C06", "empty gzip shard not flushed (dirty_ false)", "break", "util/compress.cc",
      "dirty_(true /* Even if input is empty, generate a valid gzip file */)", "dirty_(false)"),
+    ("C06", "seeded C06-n3: CreateOrThrow without O_TRUNC", "break", "util/file.cc",
+     "open(name, O_CREAT | O_TRUNC | O_RDWR, S_IRUSR", "open(name, O_CREAT | O_RDWR, S_IRUSR"),
     ("C06", "harmless: variable renamed, statements reordered", "harmless", "preprocess/shard_main.cc",
      "    preprocess::HashCallback cb;\n    preprocess::RangeFields(line, options.key_fields, options.delim, cb);\n    out[cb.Hash() % shard_count] << line << '\\n';",
      "    preprocess::HashCallback key_hash;\n    preprocess::RangeFields(line, options.key_fields, options.delim, key_hash);\n    out[key_hash.Hash() % shard_count] << line << '\\n';"),
